@@ -874,8 +874,8 @@ def run(chk):
                     'Poisson entry point: the pmf table, the one-period costs newsvendor_poisson_cost(y) and y* = poisson.ppf are inputs of the model taken from the implementation run (SciPy is not modelled)',
                     'oracle: numpy.linalg.solve for the Poisson chains and for the grid search; exact Fractions for custom-pmf chains']
     chk.assume += ['floating-point rounding is not modelled: theorems are over exact rationals',
-                   'that the stationary cost IS the long-run average cost (uniqueness of the stationary distribution / ergodic theorem) is not proved in Coq; the oracle solves the '
-                   'stationary equations with the normalisation, which has a unique solution here because every state reaches S',
+                   'long-run average = Cesaro limit of EXPECTED period costs from every initial distribution (C13_long_run_average, explicit O(1/T) rate, finite-support pmf); pathwise '
+                   '(almost-sure) convergence and infinite-support demand (Poisson itself) are not proved; the oracle solves the stationary equations with the normalisation',
                    'global optimality of the pair returned by s_s_discrete_exact is a Coq theorem for the model of the custom-pmf entry point (C13_zf_optimal); for the Poisson entry point it is '
                    'conditional on SciPy\'s one-period costs being unimodal at y* and on the untruncated pmf (C13_zf_optimal_anyG), hence checked by exhaustive window search per instance',
                    'termination of the search is not proved (explicit fuel in the model; watchdog on the implementation)']
@@ -887,6 +887,10 @@ def run(chk):
     nseq = 80 if chk.tier == 'quick' else 1500
     explore_seq(chk, nseq)          # first: the library has evaluated nothing yet, as in a replay of one of these cases
     explore(chk, plan)
+    # ergodic step (Alg/SSErgo*.v, C13_long_run_average*): the EXPECTED cost of the (s,S) system, propagated exactly period by period from several starts,
+    # averages to the value the implementation returns within the proved bound B/T
+    from props import c13_ergodic
+    c13_ergodic.ergodic_stream(chk, 25 if chk.tier == 'quick' else 600)
     if (chk.broken or chk.mismatches) and not chk.fails:
         # directed search for a failing input: bigger budget, oracle only
         mult = 4 if chk.tier == 'quick' else 1
@@ -896,6 +900,9 @@ def run(chk):
 
 def replay(chk, rp):
     c = rp['case']
+    if 'start_dist' in c:
+        from props import c13_ergodic
+        return c13_ergodic.replay_case(chk, c)
     if c.get('kind') == 'seq_custom':
         for st in c['steps']:
             for k in ('h', 'p', 'K'): st[k] = Fraction(st[k])
